@@ -1881,9 +1881,9 @@ class Filter(Blockwise):
         if isinstance(self.predicate, Or):
             result = rewrite_filters(self.predicate)
             if result._name != self.predicate._name:
-                return type(parent)(
-                    type(self)(self.frame, result), *parent.operands[1:]
-                )
+                # ``self`` need not be the first operand of ``parent`` (e.g. the
+                # right input of a Merge): replace it wherever it occurs
+                return parent.substitute(self, type(self)(self.frame, result))
 
         if isinstance(parent, (FilterAlign, Filter)) and not isinstance(
             self.frame, (FilterAlign, Filter)
